@@ -357,4 +357,94 @@ theorem checkTok_reads (bits : Nat) (tok : String) (h : checkTok bits tok = .rea
     · cases h
   · cases h
 
+/-! ## Reading: compute a candidate, certify it
+
+`roundDec` computes the double a decimal rounds to (integer division, `log2`); nothing is proved about it.  `readDec` returns
+its result only after the decidable certificate `Canon d ∧ RoundsTo a b d` has been evaluated on it, and by
+`roundsTo_unique` a certified result is *the* correctly rounded reading.  So the value the driver hands out for a token is
+justified by the theorem, not by the arithmetic of `roundDec`. -/
+
+/-- nearest integer to `a / b`, ties to even -/
+def roundHalfEven (a b : Nat) : Nat :=
+  let q := a / b
+  let r := a % b
+  if 2 * r < b then q else if b < 2 * r then q + 1 else if q % 2 = 0 then q else q + 1
+
+def roundDec (a b : Nat) : Mag :=
+  if a < b * 2 ^ 53 then
+    let m := roundHalfEven a b
+    if m < 2 ^ 53 then ⟨m, 0⟩ else ⟨2 ^ 52, 1⟩
+  else
+    let s := Nat.log2 (a / b) - 52
+    let m := roundHalfEven a (b * 2 ^ s)
+    if m < 2 ^ 53 then ⟨m, s⟩ else ⟨2 ^ 52, s + 1⟩
+
+/-- the certified reading of `a / b` (units of `2^-1074`), if the candidate passes -/
+def readDec (a b : Nat) : Option Mag :=
+  let d := roundDec a b
+  if Canon d ∧ RoundsTo a b d then some d else none
+
+theorem readDec_sound (a b : Nat) (hb : 0 < b) (d : Mag) (h : readDec a b = some d) :
+    Canon d ∧ RoundsTo a b d ∧ ∀ d', Canon d' → RoundsTo a b d' → d' = d := by
+  unfold readDec at h
+  simp only at h
+  split at h
+  · rename_i hc
+    cases h
+    exact ⟨hc.1, hc.2, fun d' hd' hr' => roundsTo_unique a b hb d' _ hd' hc.1 hr' hc.2⟩
+  · cases h
+
+/-- IEEE bit pattern of a finite value (inverse of `ofBits` on canonical magnitudes) -/
+def toBits (neg : Bool) (d : Mag) : Nat :=
+  (if neg then 2 ^ 63 else 0) + (if d.m < 2 ^ 52 then d.m else (d.s + 1) * 2 ^ 52 + (d.m - 2 ^ 52))
+
+inductive Read where
+  | bits (b : Nat)       -- the one correctly rounded double (finite)
+  | inf (neg : Bool)     -- the token says inf, or its value lies at or beyond the overflow threshold
+  | nan
+  | notANumber           -- the token is not a number at all
+  | uncertified          -- the candidate failed its certificate (never observed; reported, not hidden)
+deriving DecidableEq, Repr
+
+/-- from the certified magnitude (if any) to the value handed out -/
+def finish (neg : Bool) : Option Mag → Read
+  | none => .uncertified
+  | some d => if d.s ≤ maxS then .bits (toBits neg d) else .inf neg
+
+/-- the reading of the magnitude `a / b` with sign `neg` -/
+def readFrac (neg : Bool) (a b : Nat) : Read := finish neg (readDec a b)
+
+/-- the reading of a parsed decimal -/
+def readDecTok (t : Dec) : Read := readFrac t.neg t.frac.1 t.frac.2
+
+/-- what a correctly rounding reader returns for a token -/
+def readTok (tok : String) : Read :=
+  match parseTok tok with
+  | none => .notANumber
+  | some .nan => .nan
+  | some (.inf n) => .inf n
+  | some (.dec t) => readDecTok t
+
+theorem finish_bits (neg : Bool) (o : Option Mag) (bits : Nat) (h : finish neg o = .bits bits) :
+    ∃ d, o = some d ∧ bits = toBits neg d := by
+  cases o with
+  | none => exact Read.noConfusion h
+  | some d =>
+    have h' : (if d.s ≤ maxS then Read.bits (toBits neg d) else Read.inf neg) = .bits bits := h
+    by_cases hs : d.s ≤ maxS
+    · rw [if_pos hs] at h'; exact ⟨d, rfl, (Read.bits.inj h').symm⟩
+    · rw [if_neg hs] at h'; exact Read.noConfusion h'
+
+theorem readFrac_bits (neg : Bool) (a b : Nat) (hb : 0 < b) (bits : Nat) (h : readFrac neg a b = .bits bits) :
+    ∃ d, bits = toBits neg d ∧ Canon d ∧ RoundsTo a b d ∧ ∀ d', Canon d' → RoundsTo a b d' → d' = d := by
+  obtain ⟨d, hd, hbits⟩ := finish_bits neg (readDec a b) bits h
+  obtain ⟨h1, h2, h3⟩ := readDec_sound a b hb d hd
+  exact ⟨d, hbits, h1, h2, h3⟩
+
+/-- a value handed out for a decimal token is the one correctly rounded double -/
+theorem readDecTok_bits (t : Dec) (bits : Nat) (h : readDecTok t = .bits bits) :
+    ∃ d, bits = toBits t.neg d ∧ Canon d ∧ RoundsTo t.frac.1 t.frac.2 d ∧
+      ∀ d', Canon d' → RoundsTo t.frac.1 t.frac.2 d' → d' = d :=
+  readFrac_bits t.neg t.frac.1 t.frac.2 t.frac_pos bits h
+
 end FloatText
